@@ -182,6 +182,48 @@ pub fn units() -> Vec<Unit> {
             }],
         },
         Unit {
+            name: "pathdep",
+            has_tests: false,
+            slots: vec![
+                Slot {
+                    path: "../dep_a/src/dep_mod.veryl",
+                    variants: vec![
+                        "pub module DepMod (\n    i_a: input  logic<4>,\n    o_y: output logic<4>,\n) {\n    assign o_y = i_a + 1;\n}\npub package DepPkg {\n    const DW: u32 = 4;\n}\n",
+                        "pub module DepMod (\n    i_a: input  logic<4>,\n    o_y: output logic<4>,\n) {\n    assign o_y = i_a + 2;\n}\npub package DepPkg {\n    const DW: u32 = 4;\n}\n",
+                        "pub module DepMod (\n    i_a: input  logic<4>,\n    i_b: input  logic<4>,\n    o_y: output logic<4>,\n) {\n    assign o_y = i_a + i_b;\n}\npub package DepPkg {\n    const DW: u32 = 4;\n}\n",
+                        "pub module DepMod (\n    i_a: input  logic<4>,\n    o_y: output logic<4>,\n) {\n    assign o_y = i_a + 1;\n}\npub package DepPkg {\n    const DW: u32 = 6;\n}\n",
+                    ],
+                },
+                Slot {
+                    path: "src/use_dep.veryl",
+                    variants: vec![
+                        "module UseDep (\n    i_a: input  logic<dep_a::DepPkg::DW>,\n    o_y: output logic<dep_a::DepPkg::DW>,\n) {\n    inst u: dep_a::DepMod (\n        i_a: i_a,\n        o_y: o_y,\n    );\n}\n",
+                        "module UseDep (\n    i_a: input  logic<4>,\n    o_y: output logic<4>,\n) {\n    assign o_y = i_a;\n}\n",
+                    ],
+                },
+            ],
+        },
+        Unit {
+            name: "examples",
+            has_tests: false,
+            slots: vec![
+                Slot {
+                    path: "src/ex_lib.veryl",
+                    variants: vec![
+                        "module ExLib (\n    i_a: input  logic<3>,\n    o_y: output logic<3>,\n) {\n    assign o_y = ~i_a;\n}\n",
+                        "module ExLib (\n    i_a: input  logic<3>,\n    i_en: input logic,\n    o_y: output logic<3>,\n) {\n    assign o_y = if i_en ? ~i_a : i_a;\n}\n",
+                    ],
+                },
+                Slot {
+                    path: "examples/ex_top.veryl",
+                    variants: vec![
+                        "module ExTop (\n    i_a: input  logic<3>,\n    o_y: output logic<3>,\n) {\n    inst u: ExLib (\n        i_a: i_a,\n        o_y: o_y,\n    );\n}\n",
+                        "module ExTop (\n    i_a: input  logic<3>,\n    o_y: output logic<3>,\n) {\n    let unused_ex: logic = 0;\n    inst u: ExLib (\n        i_a: i_a,\n        o_y: o_y,\n    );\n}\n",
+                    ],
+                },
+            ],
+        },
+        Unit {
             name: "tests",
             has_tests: true,
             slots: vec![
